@@ -20,7 +20,11 @@ def scratch():
 def check(d, rule):
     # no `go build` of the scratch copy: the checker type-checks what it loads and refuses a tree that does not compile
     # (exit 2, "ERROR load"); thousands of scratch builds would otherwise fill the Go build cache (one entry per copy)
-    r = subprocess.run([os.environ.get('GENQLCHECK', '/verif/bin/genqlcheck'), '-repo', d, '-verif', '/verif', '-property', pid, '-no-evidence'], capture_output=True, text=True, env=ENV)
+    try:
+        r = subprocess.run([os.environ.get('GENQLCHECK', '/verif/bin/genqlcheck'), '-repo', d, '-verif', '/verif', '-property', pid, '-no-evidence'], capture_output=True, text=True, env=ENV, timeout=900)
+    except subprocess.TimeoutExpired:
+        # a checker that does not come back is a broken checker: reported as a miss (and as an alarm on a refactoring)
+        return 'TIMEOUT', 'the checker did not finish within 900 s'
     if r.returncode == 2 or r.stdout.startswith('ERROR'):
         return 'NOCOMPILE', (r.stdout + r.stderr)[:200]
     lines = [l for l in r.stdout.splitlines() if l.startswith('VIOLATED') or l.startswith('UNDECIDED')]
@@ -134,7 +138,7 @@ cnt = {}
 for name, st, info in res:
     cnt[st] = cnt.get(st, 0) + 1
     print(f"selftest {pid} {name}: {st} {info}")
-    if st in ('MISSED', 'NOCOMPILE', 'FALSE-ALARM'):
+    if st in ('MISSED', 'NOCOMPILE', 'FALSE-ALARM', 'TIMEOUT'):
         bad += 1
 print(f"selftest {pid}: " + ' '.join(f"{k}={v}" for k, v in sorted(cnt.items())))
 json.dump({'property': pid, 'variants': [{'name': n, 'status': s, 'info': i} for n, s, i in res], 'counts': cnt}, open(f'/verif/evidence/selftest_{pid}.json', 'w'), indent=1)
